@@ -4,6 +4,9 @@ From Gluon Require Import Model.SeqSet Proofs.SeqSetProofs Model.SearchSpec Mode
 Import ListNotations.
 Open Scope N_scope.
 
+Section WithCharset.
+Variable cs : charset.
+
 (* ---------- induction over key trees (nested in lists) ---------- *)
 Section KeyInd.
   Variable P : key -> Prop.
@@ -190,7 +193,7 @@ Proof.
 Qed.
 
 Lemma hdr_all_any f s h :
-  existsb (fun v => containsb (lower s) (lower v)) (hdr_all f h) = hdr_any f s h.
+  existsb (fun v => containsb (keynorm cs s) (ufold v)) (hdr_all f h) = hdr_any cs f s h.
 Proof.
   unfold hdr_any. induction h as [|[n v] t IH]; cbn [hdr_all existsb fst snd]; [reflexivity|].
   destruct (name_eqb f n); cbn [existsb andb]; rewrite IH; reflexivity.
@@ -201,11 +204,11 @@ Definition leaf_result (cnt : N) (uids : list N) (l : leaf) (r : option built) :
   | None => leaf_bad cnt l = true
   | Some b => leaf_bad cnt l = false /\ b_lit b = leaf_needs_lit l /\ b_db b = leaf_needs_db l /\
               b_hdr b = leaf_needs_hdr l /\
-              forall m, In (m_uid m) uids -> b_op b m = Some (eval_leaf cnt uids l m)
+              forall m, In (m_uid m) uids -> b_op b m = Some (eval_leaf cs cnt uids l m)
   end.
 
 Lemma compile_leaf_spec cnt uids l : cnt < two32 -> srt uids -> (cnt = 0 -> uids = []) ->
-  leaf_result cnt uids l (compile_leaf cnt uids l).
+  leaf_result cnt uids l (compile_leaf cs cnt uids l).
 Proof.
   intros Hc Hs H0.
   destruct l; cbn [compile_leaf leaf_result];
@@ -239,7 +242,7 @@ Definition key_result (cnt : N) (uids : list N) (k : key) (r : option built) : P
   | None => key_bad cnt k = true
   | Some b => key_bad cnt k = false /\ b_lit b = key_any leaf_needs_lit k /\ b_db b = key_any leaf_needs_db k /\
               b_hdr b = key_any leaf_needs_hdr k /\
-              forall m, In (m_uid m) uids -> b_op b m = Some (eval cnt uids k m)
+              forall m, In (m_uid m) uids -> b_op b m = Some (eval cs cnt uids k m)
   end.
 
 Definition list_result (cnt : N) (uids : list N) (l : list key) (r : option (list built)) : Prop :=
@@ -250,36 +253,36 @@ Definition list_result (cnt : N) (uids : list N) (l : list key) (r : option (lis
                existsb b_db bl = existsb (key_any leaf_needs_db) l /\
                existsb b_hdr bl = existsb (key_any leaf_needs_hdr) l /\
                forall m, In (m_uid m) uids ->
-                 and_ops (map b_op bl) m = Some (forallb (fun a => eval cnt uids a m) l)
+                 and_ops (map b_op bl) m = Some (forallb (fun a => eval cs cnt uids a m) l)
   end.
 
 Lemma compile_list_spec cnt uids l :
-  Forall (fun k => key_result cnt uids k (compile cnt uids k)) l ->
-  list_result cnt uids l (opt_all (compile cnt uids) l).
+  Forall (fun k => key_result cnt uids k (compile cs cnt uids k)) l ->
+  list_result cnt uids l (opt_all (compile cs cnt uids) l).
 Proof.
   induction 1 as [|k t Hk Ht IH]; cbn [opt_all].
   - cbn. repeat split; reflexivity.
-  - fold (opt_all (compile cnt uids) t).
-    destruct (compile cnt uids k) as [b|]; cbn [key_result] in Hk.
+  - fold (opt_all (compile cs cnt uids) t).
+    destruct (compile cs cnt uids k) as [b|]; cbn [key_result] in Hk.
     + destruct Hk as (K1 & K2 & K3 & K4 & K5).
-      destruct (opt_all (compile cnt uids) t) as [bl|]; cbn [list_result] in IH |- *.
+      destruct (opt_all (compile cs cnt uids) t) as [bl|]; cbn [list_result] in IH |- *.
       * destruct IH as (I1 & I2 & I3 & I4 & I5). cbn [existsb map]. rewrite K1, K2, K3, K4, I1, I2, I3, I4.
         repeat split; try reflexivity. intros m Hin. cbn [and_ops forallb]. rewrite (K5 m Hin).
-        destruct (eval cnt uids k m); cbn [andb]; [apply I5; exact Hin|reflexivity].
+        destruct (eval cs cnt uids k m); cbn [andb]; [apply I5; exact Hin|reflexivity].
       * cbn [existsb]. rewrite IH. apply orb_true_r.
     + cbn [list_result existsb]. rewrite Hk. reflexivity.
 Qed.
 
 Lemma compile_spec cnt uids : cnt < two32 -> srt uids -> (cnt = 0 -> uids = []) ->
-  forall k, key_result cnt uids k (compile cnt uids k).
+  forall k, key_result cnt uids k (compile cs cnt uids k).
 Proof.
   intros Hc Hs H0. induction k as [l|a IHa|a b IHa IHb|l IHl] using key_ind2; cbn [compile].
   - pose proof (compile_leaf_spec cnt uids l Hc Hs H0) as L.
-    destruct (compile_leaf cnt uids l); exact L.
-  - destruct (compile cnt uids a) as [x|]; cbn [key_result key_bad key_any] in *; [|exact IHa].
+    destruct (compile_leaf cs cnt uids l); exact L.
+  - destruct (compile cs cnt uids a) as [x|]; cbn [key_result key_bad key_any] in *; [|exact IHa].
     destruct IHa as (A1 & A2 & A3 & A4 & A5). repeat split; auto.
     intros m Hin. cbn [not_built b_op eval]. rewrite (A5 m Hin). reflexivity.
-  - destruct (compile cnt uids a) as [x|]; destruct (compile cnt uids b) as [y|];
+  - destruct (compile cs cnt uids a) as [x|]; destruct (compile cs cnt uids b) as [y|];
       cbn [key_result key_bad key_any] in *.
     + destruct IHa as (A1 & A2 & A3 & A4 & A5). destruct IHb as (B1 & B2 & B3 & B4 & B5).
       cbn [or_built b_lit b_db b_hdr b_op].
@@ -289,7 +292,7 @@ Proof.
     + rewrite IHa. reflexivity.
     + rewrite IHa. reflexivity.
   - pose proof (compile_list_spec cnt uids l IHl) as L.
-    destruct (opt_all (compile cnt uids) l) as [bl|]; cbn [list_result key_result key_bad key_any] in *; [|exact L].
+    destruct (opt_all (compile cs cnt uids) l) as [bl|]; cbn [list_result key_result key_bad key_any] in *; [|exact L].
     destruct L as (L1 & L2 & L3 & L4 & L5). cbn [list_built b_lit b_db b_hdr b_op eval].
     repeat split; auto.
 Qed.
@@ -334,11 +337,11 @@ Lemma snap_cnt_zero snap : snap_cnt snap = 0 -> snap_uids snap = [].
 Proof. unfold snap_cnt, snap_uids. destruct snap; [reflexivity|cbn; lia]. Qed.
 
 Definition sel_of (keys : list key) (snap : list msgdata) : list msgdata :=
-  filter (eval (snap_cnt snap) (snap_uids snap) (KList keys)) snap.
+  filter (eval cs (snap_cnt snap) (snap_uids snap) (KList keys)) snap.
 
 (* complete characterisation of the modelled SEARCH *)
 Theorem search_correct uidmode keys snap : wf_snap snap ->
-  search uidmode keys snap =
+  search cs uidmode keys snap =
   if key_bad (snap_cnt snap) (KList keys) then RBad
   else if existsb (msg_unreadable (KList keys)) snap then RNo
   else ROk (map (mapfn_of uidmode) (sel_of keys snap)).
@@ -346,10 +349,10 @@ Proof.
   intros W. destruct (wf_snap_parts snap W) as (A & B & C & D).
   unfold search.
   pose proof (compile_spec (snap_cnt snap) (snap_uids snap) D B (snap_cnt_zero snap) (KList keys)) as K.
-  destruct (compile (snap_cnt snap) (snap_uids snap) (KList keys)) as [b|]; cbn [key_result] in K.
+  destruct (compile cs (snap_cnt snap) (snap_uids snap) (KList keys)) as [b|]; cbn [key_result] in K.
   2:{ rewrite K. reflexivity. }
   destruct K as (K1 & K2 & K3 & K4 & K5). rewrite K1.
-  rewrite (run_slots_spec b (mapfn_of uidmode) (eval (snap_cnt snap) (snap_uids snap) (KList keys)) snap).
+  rewrite (run_slots_spec b (mapfn_of uidmode) (eval cs (snap_cnt snap) (snap_uids snap) (KList keys)) snap).
   2:{ intros m Hm. apply K5. unfold snap_uids. apply in_map. exact Hm. }
   assert (E: existsb (load_err b) snap = existsb (msg_unreadable (KList keys)) snap).
   { apply existsb_ext_c. intros m. unfold load_err, msg_unreadable. rewrite K2, K3, K4. reflexivity. }
@@ -364,7 +367,7 @@ Qed.
 Definition no_error (keys : list key) (snap : list msgdata) : Prop :=
   key_bad (snap_cnt snap) (KList keys) = false /\ existsb (msg_unreadable (KList keys)) snap = false.
 
-Lemma search_ok_inv u keys snap l : wf_snap snap -> search u keys snap = ROk l ->
+Lemma search_ok_inv u keys snap l : wf_snap snap -> search cs u keys snap = ROk l ->
   no_error keys snap /\ l = map (mapfn_of u) (sel_of keys snap).
 Proof.
   intros W. rewrite (search_correct u keys snap W). unfold no_error.
@@ -374,7 +377,7 @@ Proof.
 Qed.
 
 Lemma search_no_error u keys snap : wf_snap snap -> no_error keys snap ->
-  search u keys snap = ROk (map (mapfn_of u) (sel_of keys snap)).
+  search cs u keys snap = ROk (map (mapfn_of u) (sel_of keys snap)).
 Proof. intros W [A B]. rewrite (search_correct u keys snap W), A, B. reflexivity. Qed.
 
 (* order *)
@@ -406,7 +409,7 @@ Proof.
   - rewrite A. apply srt_nseq.
 Qed.
 
-Theorem search_ascending u keys snap l : wf_snap snap -> search u keys snap = ROk l -> srt l /\ NoDup l.
+Theorem search_ascending u keys snap l : wf_snap snap -> search cs u keys snap = ROk l -> srt l /\ NoDup l.
 Proof.
   intros W H. destruct (search_ok_inv u keys snap l W H) as [_ ->].
   assert (srt (map (mapfn_of u) (sel_of keys snap))) as S by (apply srt_map_filter, wf_srt_map, W).
@@ -415,9 +418,9 @@ Qed.
 
 (* UID SEARCH and SEARCH answer about the same messages, and fail together *)
 Theorem search_uid_same keys snap : wf_snap snap ->
-  match search false keys snap with
-  | ROk ls => ls = map m_seq (sel_of keys snap) /\ search true keys snap = ROk (map m_uid (sel_of keys snap))
-  | r => search true keys snap = r
+  match search cs false keys snap with
+  | ROk ls => ls = map m_seq (sel_of keys snap) /\ search cs true keys snap = ROk (map m_uid (sel_of keys snap))
+  | r => search cs true keys snap = r
   end.
 Proof.
   intros W. rewrite (search_correct false keys snap W), (search_correct true keys snap W).
@@ -445,7 +448,7 @@ Qed.
 
 Lemma sel_iff u keys snap m : wf_snap snap -> In m snap ->
   (In (mapfn_of u m) (map (mapfn_of u) (sel_of keys snap)) <->
-   eval (snap_cnt snap) (snap_uids snap) (KList keys) m = true).
+   eval cs (snap_cnt snap) (snap_uids snap) (KList keys) m = true).
 Proof.
   intros W Hm. unfold sel_of. rewrite in_map_filter. split.
   - intros (m' & H1 & H2 & E).
@@ -456,8 +459,8 @@ Qed.
 
 (* every message the view holds is searched: it is reported iff it satisfies the keys *)
 Theorem search_uses_view u keys snap m : wf_snap snap -> no_error keys snap -> In m snap ->
-  exists l, search u keys snap = ROk l /\
-            (In (mapfn_of u m) l <-> eval (snap_cnt snap) (snap_uids snap) (KList keys) m = true).
+  exists l, search cs u keys snap = ROk l /\
+            (In (mapfn_of u m) l <-> eval cs (snap_cnt snap) (snap_uids snap) (KList keys) m = true).
 Proof.
   intros W NE Hm. eexists. split; [apply (search_no_error u keys snap W NE)|]. apply sel_iff; assumption.
 Qed.
@@ -473,7 +476,7 @@ Proof.
   rewrite (existsb_ext_c (msg_unreadable (KList [k])) (msg_unreadable k) snap (unreadable_single k)). tauto.
 Qed.
 
-Lemma eval_single cnt uids k m : eval cnt uids (KList [k]) m = eval cnt uids k m.
+Lemma eval_single cnt uids k m : eval cs cnt uids (KList [k]) m = eval cs cnt uids k m.
 Proof. cbn [eval forallb]. apply andb_true_r. Qed.
 
 Lemma filter_ext_c {A} (f g : A -> bool) l : (forall x, f x = g x) -> filter f l = filter g l.
@@ -481,15 +484,15 @@ Proof. intros E. induction l as [|x t IH]; cbn [filter]; [reflexivity|]. rewrite
 
 Lemma sel_single_in u k snap p :
   In p (map (mapfn_of u) (sel_of [k] snap)) <->
-  exists m, In m snap /\ eval (snap_cnt snap) (snap_uids snap) k m = true /\ mapfn_of u m = p.
+  exists m, In m snap /\ eval cs (snap_cnt snap) (snap_uids snap) k m = true /\ mapfn_of u m = p.
 Proof.
   unfold sel_of. rewrite in_map_filter. split; intros (m & H1 & H2 & H3); exists m; repeat split; auto.
   - rewrite <- eval_single. exact H2.
   - rewrite eval_single. exact H2.
 Qed.
 
-Theorem search_not u k snap l : wf_snap snap -> search u [KNot k] snap = ROk l ->
-  exists l', search u [k] snap = ROk l' /\
+Theorem search_not u k snap l : wf_snap snap -> search cs u [KNot k] snap = ROk l ->
+  exists l', search cs u [k] snap = ROk l' /\
              forall p, In p l <-> In p (map (mapfn_of u) snap) /\ ~ In p l'.
 Proof.
   intros W H. destruct (search_ok_inv u _ snap l W H) as [NE ->].
@@ -504,12 +507,12 @@ Proof.
     { apply (NoDup_map_inj (mapfn_of u) snap); auto. apply srt_NoDup, wf_srt_map, W. }
     rewrite H2' in H2. discriminate.
   - intros [Hin Hn]. apply in_map_iff in Hin as (m & <- & Hm). exists m. repeat split; auto.
-    cbn [eval]. destruct (eval (snap_cnt snap) (snap_uids snap) k m) eqn:E; [|reflexivity].
+    cbn [eval]. destruct (eval cs (snap_cnt snap) (snap_uids snap) k m) eqn:E; [|reflexivity].
     exfalso. apply Hn. exists m. auto.
 Qed.
 
-Theorem search_or u a b snap l : wf_snap snap -> search u [KOr a b] snap = ROk l ->
-  exists la lb, search u [a] snap = ROk la /\ search u [b] snap = ROk lb /\
+Theorem search_or u a b snap l : wf_snap snap -> search cs u [KOr a b] snap = ROk l ->
+  exists la lb, search cs u [a] snap = ROk la /\ search cs u [b] snap = ROk lb /\
                 forall p, In p l <-> In p la \/ In p lb.
 Proof.
   intros W H. destruct (search_ok_inv u _ snap l W H) as [NE ->].
@@ -547,8 +550,8 @@ Proof.
   destruct (f x), (g x), (existsb f t), (existsb g t); reflexivity.
 Qed.
 
-Theorem search_and u k1 k2 snap l : wf_snap snap -> search u (k1 ++ k2) snap = ROk l ->
-  exists l1 l2, search u k1 snap = ROk l1 /\ search u k2 snap = ROk l2 /\
+Theorem search_and u k1 k2 snap l : wf_snap snap -> search cs u (k1 ++ k2) snap = ROk l ->
+  exists l1 l2, search cs u k1 snap = ROk l1 /\ search cs u k2 snap = ROk l2 /\
                 forall p, In p l <-> In p l1 /\ In p l2.
 Proof.
   intros W H. destruct (search_ok_inv u _ snap l W H) as [[A B] ->].
@@ -566,7 +569,7 @@ Proof.
     exists m. repeat split; auto. rewrite forallb_app, H2, H2'. reflexivity.
 Qed.
 
-Theorem search_paren u ks snap : wf_snap snap -> search u [KList ks] snap = search u ks snap.
+Theorem search_paren u ks snap : wf_snap snap -> search cs u [KList ks] snap = search cs u ks snap.
 Proof.
   intros W. rewrite !(search_correct u _ snap W). cbn [key_bad existsb]. rewrite orb_false_r.
   rewrite (existsb_ext_c (msg_unreadable (KList [KList ks])) (msg_unreadable (KList ks)) snap
@@ -577,7 +580,7 @@ Qed.
 
 (* BAD exactly when some key in the tree requires it *)
 Theorem search_bad_iff u keys snap : wf_snap snap ->
-  (search u keys snap = RBad <-> key_bad (snap_cnt snap) (KList keys) = true).
+  (search cs u keys snap = RBad <-> key_bad (snap_cnt snap) (KList keys) = true).
 Proof.
   intros W. rewrite (search_correct u keys snap W).
   destruct (key_bad (snap_cnt snap) (KList keys)); [tauto|].
@@ -594,3 +597,5 @@ Proof.
                           |rewrite Hn in E2; cbn in E2; apply andb_true_iff in E2 as [_ E2]];
     [apply N.leb_le in E1|apply N.leb_le in E2]; lia.
 Qed.
+
+End WithCharset.
